@@ -1017,11 +1017,20 @@ func c07RunSample(c *Case) (string, []Fail) {
 	}
 	what := c07DescribeCase(c)
 	var fails []Fail
+	seenBroken := map[string]bool{}
 	for _, b := range env.broken {
+		sig := "c07:chunk-undecodable"
 		if strings.HasPrefix(b, "gather: ") {
-			fails = append(fails, Fail{"c07:metrics-wedged", "after this input every metric collection fails: " + b + "; " + what})
+			sig = "c07:metrics-wedged"
+		}
+		if seenBroken[sig] {
+			continue
+		}
+		seenBroken[sig] = true
+		if sig == "c07:metrics-wedged" {
+			fails = append(fails, Fail{sig, "after this input every metric collection fails: " + b + "; " + what})
 		} else {
-			fails = append(fails, Fail{"c07:chunk-undecodable", b + "; " + what})
+			fails = append(fails, Fail{sig, fmt.Sprintf("%s (%d such events; the records sharing a chunk with the bad record are lost with it); %s", b, len(env.broken), what)})
 		}
 	}
 	keep := make([]bool, len(seq))
